@@ -23,12 +23,15 @@ pub struct E1Job {
     pub with_restart: bool,
     pub with_welcomes: bool,
     pub welcome_consent: u8,
+    pub prejoin: bool,
+    /// mutate the world after it was built (extra adversarial invitations, ...)
+    pub world_hook: Option<fn(&mut World)>,
     pub max_states: usize,
 }
 
 impl E1Job {
     pub fn new(sc: Scenario) -> E1Job {
-        E1Job { sc, backend: Bk::Memory, regimes: vec![Regime::Causal, Regime::Unrestricted], members: None, expect_converge: true, with_local_ops: true, with_restart: false, with_welcomes: false, welcome_consent: 0, max_states: 20000 }
+        E1Job { sc, backend: Bk::Memory, regimes: vec![Regime::Causal, Regime::Unrestricted], members: None, expect_converge: true, with_local_ops: true, with_restart: false, with_welcomes: false, welcome_consent: 0, prejoin: false, world_hook: None, max_states: 20000 }
     }
     pub fn backend(mut self, b: Bk) -> Self {
         self.backend = b;
@@ -101,7 +104,12 @@ pub fn run_e1(jobs: Vec<E1Job>, check: &GraphCheck, rep: &mut Report) {
 
 fn run_job(job: &E1Job, check: &GraphCheck, rep: &mut Report) {
     let w = match build_world(&job.sc, job.backend) {
-        Ok(w) => w,
+        Ok(mut w) => {
+            if let Some(h) = job.world_hook {
+                h(&mut w);
+            }
+            w
+        }
         Err(e) => {
             rep.machinery_errors.push(format!("scenario {}: {}", job.sc.name, e.0));
             return;
@@ -112,11 +120,11 @@ fn run_job(job: &E1Job, check: &GraphCheck, rep: &mut Report) {
         None => w.initial.keys().cloned().collect(),
     };
     for m in &members {
-        if !w.initial.contains_key(m) {
+        if !w.initial.contains_key(m) && !(job.prejoin && w.prejoin.contains_key(m)) {
             continue;
         }
         for regime in &job.regimes {
-            let opts = ExploreOpts { regime: *regime, max_states: job.max_states, with_restart: job.with_restart, with_local_ops: job.with_local_ops, keep_key_json: false, pool_filter: None, with_welcomes: job.with_welcomes, welcome_consent: job.welcome_consent };
+            let opts = ExploreOpts { regime: *regime, max_states: job.max_states, with_restart: job.with_restart, with_local_ops: job.with_local_ops, keep_key_json: false, pool_filter: None, with_welcomes: job.with_welcomes, welcome_consent: job.welcome_consent, prejoin: job.prejoin };
             let g = explore(&w, m, &opts);
             rep.states += g.states.len() as u64;
             rep.transitions += g.transitions as u64;
